@@ -1,6 +1,8 @@
 package families
 
 import (
+	corev1 "k8s.io/api/core/v1"
+
 	"verif/mc/clustermc"
 	"verif/mc/oracle"
 	"verif/mc/schedrun"
@@ -95,6 +97,41 @@ func deepMinRuntimeScenarios(tier string) []clustermc.Scenario {
 	return wlScenarios(tier, menu, lay, qsets, []schedrun.Config{{}}, 3, 4)
 }
 
+// movableProtectedScenarios: victims inside their min-runtime whose pods the solver could all RE-PLACE
+// on a second node (no victim "stays evicted"), next to reclaimers / preemptors pinned to the first
+// node. A protected workload at its minimum size (elastic on paper: its extra pod is gated or pending)
+// must not be touched however the victims end up; one above its minimum may lose the surplus only.
+func movableProtectedScenarios(tier string) []clustermc.Scenario {
+	pin := func(ps []world.PodSpec, pool string) []world.PodSpec {
+		for i := range ps {
+			ps[i].Mutate = func(p *corev1.Pod) { p.Spec.NodeSelector = map[string]string{"pool": pool} }
+		}
+		return ps
+	}
+	menu := []wlItem{
+		{"run-2of3min2-gated-qb-recent", world.WL{Queue: "qb", LastStart: "fresh", MinMember: 2, Pods: append(pods(2, shG1, world.StRunning, "n1"), pods(1, shG1, world.StGated, "")...)}},
+		{"run-2of3min2-pending-qb-recent", world.WL{Queue: "qb", LastStart: "fresh", MinMember: 2, Pods: append(pods(2, shG1, world.StRunning, "n1"), pin(pods(1, shG1, "", ""), "none")...)}},
+		{"run-gang2-qb-recent", world.WL{Queue: "qb", LastStart: "fresh", MinMember: 2, Pods: pods(2, shG1, world.StRunning, "n1")}},
+		{"run-elastic2min1-qb-recent", world.WL{Queue: "qb", LastStart: "fresh", MinMember: 1, Pods: pods(2, shG1, world.StRunning, "n1")}},
+		{"run-gang2-qb-old", world.WL{Queue: "qb", LastStart: "old", MinMember: 2, Pods: pods(2, shG1, world.StRunning, "n1")}},
+		{"run-g1-qc-n2", world.WL{Queue: "qc", Pods: pods(1, shG1, world.StRunning, "n2")}},
+		{"pend-g2-qa-pin-n1", world.WL{Queue: "qa", Pods: pin(pods(1, shG2, "", ""), "a")}},
+		{"pend-g1-qa-pin-n1", world.WL{Queue: "qa", Pods: pin(pods(1, shG1, "", ""), "a")}},
+		{"pend-g1-p75-qb-pin-n1", world.WL{Queue: "qb", PC: "p75", Pods: pin(pods(1, shG1, "", ""), "a")}},
+	}
+	lay := []nodeLayout{{"2n-2+2gpu-pools", []world.NodeOpt{
+		{Name: "n1", CPU: "16", Mem: "32Gi", GPUs: 2, GPUMemMiB: 40000, Labels: map[string]string{"pool": "a"}},
+		{Name: "n2", CPU: "16", Mem: "32Gi", GPUs: 2, GPUMemMiB: 40000, Labels: map[string]string{"pool": "b"}}}}}
+	// without the consolidation action (the action list is configuration) the moving is left to the
+	// reclaim / preempt solvers themselves
+	cfgs := []schedrun.Config{{}, {ConsolidatingReclaim: true}, {ConsolidatingReclaim: true, NoConsolidation: true}, {ConsolidatingReclaim: true, NoConsolidation: true, Placement: "spread"}}
+	out := wlScenariosRange(menu, lay, victimQueues(), cfgs, 2, 3)
+	for i := range out {
+		out[i].Name = "movable-protected:" + out[i].Name
+	}
+	return out
+}
+
 func C06() *clustermc.Family {
 	return &clustermc.Family{
 		Property: "C06",
@@ -104,7 +141,8 @@ func C06() *clustermc.Family {
 				lay = append(lay, nodeLayout{"2n-2+1gpu", []world.NodeOpt{{Name: "n1", CPU: "16", Mem: "32Gi", GPUs: 2, GPUMemMiB: 40000}, {Name: "n2", CPU: "16", Mem: "32Gi", GPUs: 1, GPUMemMiB: 40000}}})
 			}
 			cfgs := []schedrun.Config{{}, {ConsolidatingReclaim: true, Placement: "spread"}}
-			return append(wlScenarios(tier, victimMenu(), lay, victimQueues(), cfgs, 3, 4), deepMinRuntimeScenarios(tier)...)
+			out := append(wlScenarios(tier, victimMenu(), lay, victimQueues(), cfgs, 3, 4), deepMinRuntimeScenarios(tier)...)
+			return append(out, movableProtectedScenarios(tier)...)
 		},
 		Depth: func(tier string) int {
 			if tier == "thorough" {
